@@ -66,6 +66,10 @@ fn marker_rom(page: u8, off: usize) -> u8 {
 fn fresh_128(host_rom: bool) -> Emu {
     let mut o = Opts::k128();
     o.rom = !host_rom;
+    // the host-ROM configuration also has the Kempston joystick and mouse plugged in: input devices,
+    // a write to a paging alias that one of their read ports shares is still a paging write
+    o.kempston = host_rom;
+    o.mouse = host_rom;
     let mut e = rig::emu_stepping(&o);
     if host_rom {
         // the host assets deliver short reads (a valid LoadableAsset may): 1000 bytes / 16383 bytes per call
@@ -244,7 +248,9 @@ fn full_oracle(ctx: &Ctx, e: &mut Emu, r: &RefMem, roms: &Roms, hist: &[u8], hos
 }
 
 /// Addresses that select the paging latch and nothing else (odd, A15=0, A1=0).
-const PAGING_ALIASES: [u16; 6] = [0x7FFD, 0x3FFD, 0x1FFD, 0x00FD, 0x7F3D, 0x5555];
+/// The last four share their low byte pattern with the read ports of the Kempston joystick (A7-A5=0)
+/// and mouse (A5=0; buttons, X, Y by A8/A10).
+const PAGING_ALIASES: [u16; 10] = [0x7FFD, 0x3FFD, 0x1FFD, 0x00FD, 0x7F3D, 0x5555, 0x7F1D, 0x7ADD, 0x7BDD, 0x7FDD];
 
 /// The `idx`-th paging write of a history, executed by the emulated CPU. The instruction form and
 /// the port alias rotate deterministically with (idx, value): OUT (C),A / OUT (n),A (port high
@@ -467,7 +473,7 @@ pub fn run(tier: Tier, seed: u64, replay: Option<String>) -> i32 {
     bfs_128(&ctx, &host, true);
     check_48(&ctx);
     ctx.finish(
-        "BFS from reset over the complete 128K paging state (last accepted 7FFD byte, lock, screen bank, map) with all 256 OUT values per state, each transition replayed on a fresh real Emulator (write executed by the emulated CPU; the instruction form OUT (C),A / OUT (n),A / OUTI / OUT (C),0 (for the value 0) and the port alias among 7FFD, 3FFD, 1FFD, 00FD, 7F3D, 5555 rotate with history position and value) in lock step with RefMem; in every distinct state: peek at all 65536 addresses, CPU stores/loads at 4 offsets x 4 windows with an all-banks RAM diff, 16-bit loads/stores/POP whose two bytes straddle each window boundary; embedded and host-supplied ROM sets (the latter with a host I/O extender installed that claims an unrelated port); 48K: all 256 values x 3 port aliases x 3 instruction forms leave map and memory unchanged. distinct = distinct paging states reached",
+        "BFS from reset over the complete 128K paging state (last accepted 7FFD byte, lock, screen bank, map) with all 256 OUT values per state, each transition replayed on a fresh real Emulator (write executed by the emulated CPU; the instruction form OUT (C),A / OUT (n),A / OUTI / OUT (C),0 (for the value 0) and the port alias among 7FFD, 3FFD, 1FFD, 00FD, 7F3D, 5555, 7F1D, 7ADD, 7BDD, 7FDD rotate with history position and value) in lock step with RefMem; in every distinct state: peek at all 65536 addresses, CPU stores/loads at 4 offsets x 4 windows with an all-banks RAM diff, 16-bit loads/stores/POP whose two bytes straddle each window boundary; embedded and host-supplied ROM sets (the latter with a host I/O extender installed that claims an unrelated port, and with the Kempston joystick and mouse plugged in); 48K: all 256 values x 3 port aliases x 3 instruction forms leave map and memory unchanged. distinct = distinct paging states reached",
         true,
         &["marker RAM is written with execute_poke through the 0xC000 window after CPU-executed paging OUTs", "hooks: verif_paging, verif_ram_bank (read-only)"],
     )
